@@ -258,7 +258,7 @@ class BaseNode:
             infos: A dictionary of input names to input infos.
             nodes: A dictionary of node names to node objects.
         """
-        for input_name, info in infos.items():
+        for info in infos.values():
             output_node = nodes[info.output]
             self.connect(
                 output_node,
@@ -268,7 +268,7 @@ class BaseNode:
                 window=info.window,
                 skip=info.skip,
                 jitter=info.jitter,
-                name=input_name,
+                name=info.name,  # The input (shadow) name; NodeInfo.inputs is keyed by the name of the output node
             )
 
     @property
